@@ -34,6 +34,20 @@ SIGS = {
 }
 
 
+# record types that occur as type *items* (type exports of instances, type imports)
+RTYPES = {
+    "R": {"wat": '(record (field "f" u32))', "desc": "record{f:u32}"},
+}
+
+SIGS["C"] = {
+    # never lifted (import positions only): a tuple with an anonymous compound element
+    "wat": '(func (param "x" (tuple (list u8) u32)))',
+    "core": "(param i32 i32 i32)",
+    "body": "",
+    "desc": "(x:tuple<list<u8>,u32>)->_",
+}
+
+
 def func(sig):
     return ("func", sig)
 
@@ -68,6 +82,8 @@ def tla_kind(k):
         return f'[c |-> "inst", ex |-> {tla_fun(k[1], tla_kind)}]'
     if k[0] == "type":
         return f'[c |-> "type", id |-> {tla_str(k[1])}]'
+    if k[0] == "rtype":
+        return f'[c |-> "rtype", desc |-> {tla_str(RTYPES[k[1]]["desc"])}]'
     raise ValueError(k)
 
 
@@ -80,14 +96,34 @@ def tla_set(xs, render=tla_str):
 
 
 # ---------------------------------------------------------------- WAT rendering
+_tcount = [0]
+
+
 def wat_type(k):
     """component-level type expression for an import/export ascription"""
     if k[0] == "func":
         return SIGS[k[1]]["wat"]
     if k[0] == "inst":
-        body = " ".join(f'(export "{n}" {wat_type(v)})' for n, v in k[1].items())
-        return f"(instance {body})"
+        parts = []
+        for n, v in k[1].items():
+            if v[0] == "rtype":
+                # a type export of an instance type: declare the type, export it by equality
+                _tcount[0] += 1
+                t = f"$rt{_tcount[0]}"
+                parts.append(f'(type {t} {RTYPES[v[1]]["wat"]}) (export "{n}" (type (eq {t})))')
+            else:
+                parts.append(f'(export "{n}" {wat_type(v)})')
+        return f"(instance {' '.join(parts)})"
     raise ValueError(k)
+
+
+def wat_import(n, k):
+    """one top-level import declaration (a type item needs its type declared first)"""
+    if k[0] == "rtype":
+        _tcount[0] += 1
+        t = f"$rt{_tcount[0]}"
+        return f'(type {t} {RTYPES[k[1]]["wat"]}) (import "{n}" (type (eq {t})))'
+    return f'(import "{n}" {wat_type(k)})'
 
 
 class WatBuilder:
@@ -130,12 +166,16 @@ class WatBuilder:
             i = self.fresh("i")
             self.lines.append(f"(instance {i} {' '.join(parts)})")
             return ("instance", i)
+        if k[0] == "rtype":
+            t = self.fresh("t")
+            self.lines.append(f'(type {t} {RTYPES[k[1]]["wat"]})')
+            return ("type", t)
         raise ValueError(k)
 
     def build(self, imports, exports):
         out = ["(component"]
         for n, k in imports:
-            out.append(f'  (import "{n}" {wat_type(k)})')
+            out.append("  " + wat_import(n, k))
         ex = []
         for n, k in exports:
             sort, ident = self.define(k)
@@ -148,7 +188,7 @@ def kinds_package(kinds):
     """a helper component importing one item of every named kind: gives the harness real ItemKinds"""
     out = ["(component"]
     for name, k in kinds.items():
-        out.append(f'  (import "k-{name.lower()}" {wat_type(k)})')
+        out.append("  " + wat_import(f"k-{name.lower()}", k))
     out.append(")")
     return "\n".join(out)
 
@@ -160,6 +200,8 @@ def kind_json(k):
         return {"c": "inst", "ex": {n: kind_json(v) for n, v in k[1].items()}}
     if k[0] == "type":
         return {"c": "type", "id": k[1]}
+    if k[0] == "rtype":
+        return {"c": "rtype", "desc": RTYPES[k[1]]["desc"]}
     raise ValueError(k)
 
 
@@ -196,7 +238,8 @@ def lib_ver():
     return {
         "name": "ver",
         "pkgs": {
-            "p1": {"name": "test:p1", "version": None, "imports": [("ns:p/i@0.2.0", Ix)], "exports": [("o", fA)]},
+            # an unversioned interface name aggregated before the lower member of a track
+            "p1": {"name": "test:p1", "version": None, "imports": [("ns:q/plain", Iy), ("ns:p/i@0.2.0", Ix)], "exports": [("o", fA)]},
             "p2": {"name": "test:p2", "version": None, "imports": [("ns:p/i@0.2.1", Iy)], "exports": [("o", fA)]},
             "p3": {"name": "test:p3", "version": None, "imports": [("ns:p/i@0.3.0", Ix), ("ns:p/i@0.2.0", IxB)], "exports": []},
             "p4": {"name": "test:p4", "version": "2.0.0", "imports": [("ns:p/i@1.0.0", Ix), ("ns:p/j@1.1.0", Iy)], "exports": [("ns:p/i@1.2.0", Ixy)]},
@@ -229,7 +272,28 @@ def name_info(n):
     return f"[base |-> {tla_str(base)}, ver |-> {ver}, pre |-> {pre}, build |-> {build}]"
 
 
-LIBS = {"core": lib_core, "ver": lib_ver}
+def lib_shape():
+    """encode-relevant shapes: an import-less package, a package instantiated several times, type
+    items inside instances, a function type with an anonymous compound tuple element"""
+    fC = func("C")
+    R = ("rtype", "R")
+    Ityp = ("inst", {"t": R, "x": fA})
+    return {
+        "name": "shape",
+        "pkgs": {
+            "pd": {"name": "test:d", "version": None, "imports": [], "exports": [("x", fA), ("j", Ityp)]},
+            "pe": {"name": "test:e", "version": "0.1.0", "imports": [("t", fC), ("i", Ityp), ("f", fA)], "exports": [("h", fB)]},
+        },
+        "kinds": {"fA": fA, "R": R},
+        "import_names": ["k", "r"],
+        "export_names": ["e1", "e2"],
+        "def_names": [],
+        "valid_names": ["k", "r", "e1", "e2"],
+        "deftypes": {},
+    }
+
+
+LIBS = {"core": lib_core, "ver": lib_ver, "shape": lib_shape}
 
 
 def emit(lib):
@@ -276,6 +340,7 @@ def emit(lib):
         },
         "kinds": {k: kind_json(v) for k, v in lib["kinds"].items()},
         "kinds_wat": kinds_package(lib["kinds"]),
+        "names": {"import": lib["import_names"], "export": lib["export_names"], "def": lib["def_names"]},
         "deftypes": {k: {"class": v[0], "deps": v[1]} for k, v in lib["deftypes"].items()},
     }
     os.makedirs(os.path.join(ROOT, "harness", "data"), exist_ok=True)
